@@ -286,9 +286,50 @@ Proof.
       rewrite (IHr _ _ _ Er term L' _ _ _ k Ht) by (rewrite N.add_0_l; exact Es).
       rewrite N.add_0_l, !erase_app, !flatten_app, flatten_tick_opt. cbn [app]. rewrite <- !app_assoc. reflexivity.
     + inversion Hm; subst h is'; clear Hm.
-      rewrite (IHj _ _ _ _ Ej _ _ _ _ (fits_le _ _ Hf ltac:(lia))). unfold after_instr.
+      assert (Hf1 : fits_u32 (e + hj) = true) by (apply (fits_le (e + hj) (e + (hj + hr)) Hf); lia).
+      rewrite (IHj _ _ _ _ Ej _ _ _ _ Hf1). unfold after_instr.
       rewrite (IHr _ _ _ Er term L' _ _ _ k Ht) by (rewrite <- N.add_assoc; exact Hf).
       rewrite N.add_assoc, !erase_app, !flatten_app. rewrite <- !app_assoc. reflexivity.
 Qed.
 
+(** ** whole function bodies *)
+Theorem flat_structured_agree_body nl result body b :
+  meter_body cfg cx nl result body = Some b ->
+  inject_accounting_flat cfg cx nl result (flatten_body body) = Some (flatten_body b).
+Proof.
+  unfold meter_body, ameter_body. destruct (mseq [result] body) as [[h body']|] eqn:Em; [|discriminate].
+  cbn [obind]. destruct (seg_ok (c_invoke_after cfg nl + h)) eqn:Es; [|discriminate].
+  intro H; inversion H; subst b; clear H.
+  unfold inject_accounting_flat, trun, flatten_body.
+  change {| ts_labels := [result]; ts_new := []; ts_energy := c_invoke_after cfg nl; ts_pending := [] |}
+    with (mk [result] [] (c_invoke_after cfg nl) []).
+  rewrite (flat_seq body [result] h body' Em OEnd (tl [result]) [] _ [] [] (term_end _) Es).
+  cbn [Meter.tloop obind ts_pending mk ts_new app tl].
+  f_equal. rewrite erase_app, flatten_app. rewrite <- !app_assoc. f_equal.
+  unfold ftick. destruct (0 <? c_invoke_after cfg nl + h); reflexivity.
+Qed.
+
 End Flat.
+
+(** the whole module: the flat transcription applied to the flattened bodies of [m] gives the
+    flattened bodies of [inject cfg m] *)
+Theorem flat_structured_agree cfg m m' :
+  (forall L, c_cost cfg OEnd L (ctx_of_module m) = Some 0) ->
+  (forall L, c_cost cfg OElse L (ctx_of_module m) = Some 0) ->
+  inject cfg m = Some m' ->
+  inject_flat cfg m (map (fun f => flatten_body (f_body f)) (m_funcs m)) =
+  Some (map (fun f => flatten_body (f_body f)) (m_funcs m')).
+Proof.
+  intros He Hl. unfold inject, inject_flat.
+  destruct (omap_list (meter_func cfg m) (m_funcs m)) as [fs|] eqn:E; [|discriminate].
+  intro H; inversion H; subst m'; clear H. cbn [m_funcs].
+  revert fs E. induction (m_funcs m) as [|f r IH]; intros fs E; cbn [omap_list map combine] in *.
+  - inversion E; reflexivity.
+  - destruct (meter_func cfg m f) as [f'|] eqn:Ef; [|discriminate].
+    destruct (omap_list (meter_func cfg m) r) as [fs'|] eqn:Er; [|discriminate].
+    inversion E; subst fs; clear E. cbn [fst snd map]. rewrite (IH fs' eq_refl).
+    unfold meter_func in Ef. destruct (nth_error (m_types m) (f_type f)) as [ft|]; [|discriminate].
+    destruct (meter_body cfg (ctx_of_module m) _ _ _) as [b|] eqn:Eb; [|discriminate].
+    inversion Ef; subst f'; clear Ef. cbn [f_body].
+    rewrite (flat_structured_agree_body cfg (ctx_of_module m) He Hl _ _ _ _ Eb). reflexivity.
+Qed.
